@@ -803,11 +803,14 @@ def impl(case):
     import drxtract.dir.dir as dd
     t = case["lines"][0].lstrip("#").split()
     if t[1] in ("real", "realslow", "realparts"):
-        out = []
+        out, memo = [], {}
         for line in case["lines"]:
             t = line.lstrip("#").split()
             f = real_parts_impl if t[1] == "realparts" else real_impl
-            out.append(f(t[2], t[3], int(t[4]), bytes.fromhex("" if t[5] == "-" else t[5])))
+            key = (f.__name__,) + tuple(t[2:6])
+            if key not in memo:
+                memo[key] = f(t[2], t[3], int(t[4]), bytes.fromhex("" if t[5] == "-" else t[5]))
+            out.append(memo[key])
         return out
     order, P, data = t[2], int(t[3]), bytes.fromhex("" if t[4] == "-" else t[4])
     if case["spec"]["mode"] == "stub":
@@ -857,10 +860,21 @@ def nontrivial(case, io):
 
 # ---------------------------------------------------------------------------------------------- known findings
 
+def _all_error(got):
+    """the observable "error", or (oracle failure: the list of the case's observables) every line "error"""
+    if got == '"error"':
+        return True
+    try:
+        l = json.loads(got)
+    except Exception:
+        return False
+    return isinstance(l, list) and len(l) > 0 and all(x == '"error"' for x in l)
+
+
 def _m_f28(case, f, p):
     """F28: some bitmap member refers (palette id p > 0) to a palette member in the same or a LATER cast slot, and the call raised"""
     # (an oracle failure carries the list of the case's observables, a stage-D expectation failure the observable itself)
-    if f.got not in ('"error"', canon(['"error"'])) or case["spec"].get("mode") not in ("stub", "real"):
+    if not _all_error(f.got) or case["spec"].get("mode") not in ("stub", "real"):
         return False
     m = _spec_movie(case)
     for i, s in enumerate(m["members"]):
